@@ -41,6 +41,7 @@ type Transport struct {
 	// write side
 	WriteMax        int   // max bytes accepted per underlying write step (0 = unlimited)
 	WriteBlockOnce  int   // number of upcoming synchronous Write calls that return ErrWouldBlock
+	WriteBlockAt    int   // a synchronous Write returns ErrWouldBlock once when this many bytes were accepted in total (-1 never)
 	WriteFailAfter  int   // inject ErrInjected once this many bytes were accepted in total (-1 never)
 	Written         []byte
 	WriteCalls      int
@@ -56,7 +57,7 @@ type Transport struct {
 	MaxOfferedRead int
 }
 
-func New() *Transport { return &Transport{WriteFailAfter: -1} }
+func New() *Transport { return &Transport{WriteFailAfter: -1, WriteBlockAt: -1} }
 
 var _ sonic.Stream = (*Transport)(nil)
 
@@ -149,7 +150,9 @@ func (t *Transport) readSome(b []byte) (int, error) {
 		return 0, sonicerrors.ErrWouldBlock
 	}
 	if len(b) == 0 {
-		return 0, nil
+		// like read(2) on a descriptor through sonic's file/conn: a zero-length read moves nothing and is
+		// reported as end-of-file
+		return 0, io.EOF
 	}
 	n := copy(b, t.segs[0])
 	if n == len(t.segs[0]) {
@@ -214,6 +217,15 @@ func (t *Transport) Write(b []byte) (int, error) {
 	if t.WriteBlockOnce > 0 {
 		t.WriteBlockOnce--
 		return 0, sonicerrors.ErrWouldBlock
+	}
+	if t.WriteBlockAt >= 0 {
+		if len(t.Written) >= t.WriteBlockAt {
+			t.WriteBlockAt = -1
+			return 0, sonicerrors.ErrWouldBlock
+		}
+		if room := t.WriteBlockAt - len(t.Written); len(b) > room {
+			b = b[:room]
+		}
 	}
 	return t.accept(b)
 }
